@@ -60,8 +60,8 @@ type DCBody struct {
 	// announced anything carries internally)
 	ZeroIdBystander bool       `json:"zero_id_bystander,omitempty"`
 	// Reinit: one more connection announces the first victim's client id while the victim is still there,
-	// and a moment later announces an id of its own (a second INIT on one connection): from then on it is
-	// a stranger to the victim and must get none of its replies; it works on a key of its own to the end
+	// and a moment later announces an id of its own (a second INIT on one connection); it works on a key of
+	// its own and closes; the first id's entry in the table of announced ids must be gone by then
 	Reinit bool `json:"reinit,omitempty"`
 	NBystanders   int        `json:"nbystanders"`
 	BystanderOps  int        `json:"bystander_ops"`
@@ -620,9 +620,14 @@ func runDisconnect(w *World) {
 				if _, err := c.conn.Write(buf); err != nil {
 					return
 				}
-				ssched.NoPreempt(func() { clientIdOfConn[cid] = 700 })
-				w.probe("second_init_connections")
+				// for the routing rule this connection stays one that announced the victim's id (it did; replies of
+				// the victim that reach it are within the letter of the property, and the server hands it the
+				// victim's reply channel for good if the victim ends between the two announcements). What the
+				// second INIT must not do is leave the first id's entry behind: the connection is closed at the
+				// end of its work and the final check of the id table looks for entries of closed connections
 				idx := 0
+				w.probe("second_init_connections")
+				defer c.Close()
 				for i := 0; i < body.BystanderOps+6; i++ {
 					send(c, cid, &idx, OpSpec{Cmd: 1, Key: 230, Lid: 530, Expried: 5, Count: 0, DelayMs: 100}, true)
 					sleep(400 * time.Millisecond)
